@@ -571,7 +571,7 @@ class SsbGraphMinimizer:
                                         shape="ellipse",
                                     )
                                     actual_break_point["op"].remove_marker()
-                                    actual_break_point["op"].add_marker(ForeverBreak(loop_id))
+                                    actual_break_point["op"].add_marker(ForeverBreak(loop_id, inserted=True))
                                     es_to_delete.add(loop_edge)
                                     e = self._reconnect(g, break_point, loop_edge, actual_break_point, True)
                                     e = g.add_edge(
@@ -604,7 +604,7 @@ class SsbGraphMinimizer:
                                         shape="ellipse",
                                     )
                                     actual_continue_point["op"].remove_marker()
-                                    actual_continue_point["op"].add_marker(ForeverContinue(loop_id))
+                                    actual_continue_point["op"].add_marker(ForeverContinue(loop_id, inserted=True))
                                     es_to_delete.add(loop_edge)
                                     e = self._reconnect(g, continue_point, loop_edge, actual_continue_point, True)
                                     e["loop"] = False
